@@ -440,7 +440,8 @@ public:
   }
 
   /// \brief Set/replace the absolute expiry of an EXISTING key without rewriting
-  /// its value (KTP-10). Silent no-op if the key is absent (DQ-5). A past 'when'
+  /// its value (KTP-10). Silent no-op if the key is absent (DQ-5) — which includes
+  /// a key whose expiry has passed but which is not evicted yet. A past 'when'
   /// makes the key immediately eligible for eviction (armed with delay 0).
   void expireAt(const std::string &key, std::chrono::system_clock::time_point when)
   {
@@ -454,9 +455,9 @@ public:
     {
       throw KVStoreException("KVStore is shut down");
     }
-    if (_kv.find(key) == _kv.end())
+    if (_kv.find(key) == _kv.end() || isExpiredLocked(key))
     {
-      return; // silent no-op on absent key
+      return; // silent no-op on absent (or expired-not-yet-evicted) key
     }
     startTtlOrCleanup(lock);
 
@@ -508,8 +509,9 @@ public:
   }
 
   /// \brief Clear a key's expiry (keep its value): cancel its timer + write an
-  /// 'X' INT64_MIN entry (KTP-10). Silent no-op if absent or already permanent
-  /// (DQ-5); no-op post-shutdown (does not throw, KTP-7).
+  /// 'X' INT64_MIN entry (KTP-10). Silent no-op if absent (or expired but not
+  /// evicted yet) or already permanent (DQ-5); no-op post-shutdown (does not
+  /// throw, KTP-7).
   void persist(const std::string &key)
   {
     if (key.empty())
@@ -521,9 +523,9 @@ public:
     {
       return; // no-op post-shutdown
     }
-    if (_kv.find(key) == _kv.end())
+    if (_kv.find(key) == _kv.end() || isExpiredLocked(key))
     {
-      return; // absent
+      return; // absent (or expired-not-yet-evicted: must not come back)
     }
     if (_expiry.find(key) == _expiry.end())
     {
@@ -1009,6 +1011,15 @@ private:
         delay, [this, keyCopy, idHolder]() { evictionCallback(keyCopy, idHolder); });
     *idHolder = id; // published under _mutex; the closure reads it only under _mutex
     return id;
+  }
+
+  /// \brief True if key carries an expiry that has passed (expired-not-yet-
+  /// evicted). The read paths hide such a key, so a mutator that acts only on an
+  /// EXISTING key must treat it as absent too. Caller holds _mutex.
+  bool isExpiredLocked(const std::string &key) const
+  {
+    auto eit = _expiry.find(key);
+    return eit != _expiry.end() && eit->second.expiry <= std::chrono::system_clock::now();
   }
 
   void cancelTimerLocked(const std::string &key)
